@@ -851,3 +851,60 @@ Proof.
       * apply Nat.leb_gt in E2. rewrite (proj2 (Nat.leb_gt _ _)) by lia. reflexivity.
     + apply Nat.leb_gt in E1. rewrite (proj2 (Nat.leb_gt _ _)) by lia. reflexivity.
 Qed.
+
+(* ------------------------------------------------------------------ *)
+(* ReadOrEOF / ReadOrThrow *)
+
+Lemma read_or_eof_spec fd : forall fuel remaining acc orc r evs orc', (length orc < fuel)%nat ->
+  read_or_eof fuel fd remaining acc orc = (r, evs, orc') ->
+  r <> Fuel /\ r <> Abort /\ is_val r = negb (any_failed evs) /\
+  (forall data, r = Val data -> data = acc ++ concat (delivered fd evs)) /\ (length orc' <= length orc)%nat.
+Proof.
+  induction fuel as [|f IH]; intros remaining acc orc r evs orc' Hlt E; [lia|].
+  cbn [read_or_eof] in E. destruct (remaining <=? 0).
+  - inversion E; subst. simpl. rewrite app_nil_r. repeat split; auto; try congruence; try (intros data H; inversion H; reflexivity).
+  - pose proof (PartialRead_sound fd remaining orc) as Hs.
+    destruct (PartialRead fd remaining orc) as [[rp ev] orc1] eqn:Ep. simpl in Hs. destruct Hs as (Hf & Hv & Hl).
+    unfold PartialRead in Ep. pose proof (partial_read_no_abort _ _ _ _ _ _ _ Ep) as Hna.
+    pose proof (partial_read_io _ _ _ _ _ _ _ Ep) as (P1 & P2 & P3).
+    destruct rp as [d| | |]; try congruence.
+    + simpl in Hv. assert (any_failed ev = false) as Hnf by (destruct (any_failed ev); simpl in *; congruence).
+      destruct d as [|b d'].
+      * inversion E; subst. rewrite Hnf, P3. simpl. rewrite app_nil_r. repeat split; auto; try congruence; try (intros data H; inversion H; reflexivity).
+      * pose proof (partial_read_consumes _ _ _ _ _ _ _ Ep ltac:(congruence)) as Hc.
+        destruct (read_or_eof f fd (remaining - blen (b :: d')) (acc ++ b :: d') orc1) as [[r2 ev2] orc2] eqn:E2.
+        inversion E; subst r evs orc'.
+        assert (length orc1 < f)%nat as Hlt2 by lia.
+        destruct (IH _ _ _ _ _ _ Hlt2 E2) as (H1 & H2 & H3 & H4 & H5).
+        rewrite any_failed_app, Hnf, delivered_app, P3. simpl orb. repeat split; auto; [|lia].
+        intros data Hd. rewrite (H4 data Hd). simpl. rewrite <- app_assoc. reflexivity.
+    + inversion E; subst. simpl in *. repeat split; auto; try congruence; try (intros data H; discriminate).
+Qed.
+
+Lemma read_or_throw_spec fd : forall fuel remaining acc orc r evs orc', (length orc < fuel)%nat ->
+  read_or_throw fuel fd remaining acc orc = (r, evs, orc') ->
+  r <> Fuel /\ r <> Abort /\ (any_failed evs = true -> r = Exn) /\
+  (forall data, r = Val data -> any_failed evs = false /\ data = acc ++ concat (delivered fd evs) /\ ~ In [] (delivered fd evs)).
+Proof.
+  induction fuel as [|f IH]; intros remaining acc orc r evs orc' Hlt E; [lia|].
+  cbn [read_or_throw] in E. destruct (remaining <=? 0).
+  - inversion E; subst. simpl. rewrite app_nil_r. repeat split; auto; try congruence; try discriminate; try (intros data H; inversion H; reflexivity).
+  - pose proof (PartialRead_sound fd remaining orc) as Hs.
+    destruct (PartialRead fd remaining orc) as [[rp ev] orc1] eqn:Ep. simpl in Hs. destruct Hs as (Hf & Hv & Hl).
+    unfold PartialRead in Ep. pose proof (partial_read_no_abort _ _ _ _ _ _ _ Ep) as Hna.
+    pose proof (partial_read_io _ _ _ _ _ _ _ Ep) as (P1 & P2 & P3).
+    destruct rp as [d| | |]; try congruence.
+    + simpl in Hv. assert (any_failed ev = false) as Hnf by (destruct (any_failed ev); simpl in *; congruence).
+      destruct d as [|b d'].
+      * inversion E; subst. repeat split; auto; try congruence; try discriminate.
+      * pose proof (partial_read_consumes _ _ _ _ _ _ _ Ep ltac:(congruence)) as Hc.
+        destruct (read_or_throw f fd (remaining - blen (b :: d')) (acc ++ b :: d') orc1) as [[r2 ev2] orc2] eqn:E2.
+        inversion E; subst r evs orc'.
+        assert (length orc1 < f)%nat as Hlt2 by lia.
+        destruct (IH _ _ _ _ _ _ Hlt2 E2) as (H1 & H2 & H3 & H4).
+        rewrite any_failed_app, Hnf, delivered_app, P3. simpl orb. repeat split; auto.
+        -- apply (H4 data H).
+        -- destruct (H4 data H) as (_ & Hd & _). rewrite Hd. simpl. rewrite <- app_assoc. reflexivity.
+        -- destruct (H4 data H) as (_ & _ & Hn). simpl. intros [Hc0|Hc0]; [discriminate|contradiction].
+    + inversion E; subst. simpl in *. repeat split; auto; try congruence; try (intros data H; discriminate).
+Qed.
